@@ -2,6 +2,7 @@ import TorchDataVerif.Proofs.MPMapLive
 import TorchDataVerif.Proofs.MPIterF
 import TorchDataVerif.Proofs.MPStep
 import TorchDataVerif.Proofs.MPIterLive
+import TorchDataVerif.Proofs.MPMapDelta
 /-!
 # MP, map-style: consequences of the invariants, in the form the property theorems use
 -/
